@@ -127,7 +127,22 @@ def own_bounds(rng, pop):
     def lit():
         return ['num', rng.choice([0, 1, 2, 5, -3, 12])]
     shape = rng.choice(['range', 'interp', 'interp', 'count', 'cycle',
-                        'light-from', 'again', 'in-routine'])
+                        'light-from', 'again', 'in-routine', 'while-number',
+                        'while-number'])
+    if shape == 'while-number':
+        # `repeat while` on a plain number: it runs until the number is zero,
+        # from either side
+        n0 = rng.choice([-3, -1, 3, 2, -2.5, 1.5])
+        step = (1 if n0 < 0 else -1) * (0.5 if n0 != int(n0) else 1)
+        cond = rng.choice([['var', 'wc'],
+                           ['bin', '-', ['var', 'wc'], ['num', 0]],
+                           ['bin', '*', ['var', 'wc'], ['num', 2]]])
+        return [['assign', 'wc', ['num', n0]],
+                ['repeat', 'while', {'cond': cond},
+                 [['print', ['var', 'wc']],
+                  ['assign', 'wc', ['bin', '+', ['var', 'wc'],
+                                    ['num', step]]]]],
+                ['print', ['num', 77]]], {'own-bounds', 'while-number'}, []
     v = 'lx' if shape not in ('range', 'count') else 'li'
     body = [['print', ['var', v]]]
     prog = [['assign', v, ['num', v0]]]
